@@ -135,7 +135,7 @@ fn fresh_case<G: CurveTag>(bytes: &[u8], col: &mut Collector, large: bool) -> Re
     let cut = bytes.len().min(8);
     let mut chi = Choices::new(&bytes[..cut]);
     let mut ch = Choices::new(&bytes[cut..]);
-    let cfg = GenCfg { max_ops1: 10, max_closures: 2, max_ops2: 6, max_commits: 3, big_gates: 0 , max_terms: 4, wide: false};
+    let cfg = GenCfg { max_ops1: 10, max_closures: 2, max_ops2: 6, max_commits: 3, big_gates: 0, max_terms: 4, wide: false };
     let mut prog: Program = gen_program(&mut ch, G::CURVE, &cfg);
     prog.cap_p = Cap::Exact;
     prog.cap_v = Cap::Exact;
